@@ -175,6 +175,9 @@ def _df(shard):
         prob = []
         if not df0.equals(before):
             prob.append("input frame modified")
+        if len(r) != len(df0) or not r.index.equals(df0.index):
+            prob.append(f"index/row count changed ({fname} index): {len(r)} rows for {len(df0)}")
+            r = r.iloc[:0].reindex(df0.index) if len(r) != len(df0) else r
         sel = [c for c in (cols if cols is not None else list(df0.columns)) if c != "label"]
         for c in ("a", "b", "k"):
             want = np.asarray(polynomial_detrend(df0[c].values.copy(), order=order), dtype=float)
@@ -182,7 +185,7 @@ def _df(shard):
                 tgt = c if inplace else f"{c}{suffix}"
                 if tgt not in r.columns:
                     prob.append(f"missing column {tgt}")
-                elif not np.allclose(np.asarray(r[tgt], dtype=float), want, rtol=0, atol=1e-9 * (np.abs(want).max() + 1)):
+                elif np.asarray(r[tgt]).shape != want.shape or not np.allclose(np.asarray(r[tgt], dtype=float), want, rtol=0, atol=1e-9 * (np.abs(want).max() + 1)):
                     prob.append(f"{tgt} is not polynomial_detrend(column)")
                 if not inplace and not np.array_equal(r[c].to_numpy(), df0[c].to_numpy()):
                     prob.append(f"original {c} altered although inplace=False")
@@ -193,8 +196,6 @@ def _df(shard):
                     prob.append(f"unselected column {c} got a detrended copy")
         if list(r["label"]) != list(df0["label"]) or f"label{suffix}" in r.columns:
             prob.append("non-numeric column altered")
-        if len(r) != len(df0) or not r.index.equals(df0.index):
-            prob.append(f"index/row count changed ({fname} index)")
         if prob:
             key = "df/" + prob[0].split(" ")[0]
             if key not in seen:
